@@ -1,6 +1,6 @@
 (* C27 — Peer-controlled retained state stays bounded. *)
 From H2 Require Import Base.Prelude Base.PyDict Model.FsmTypes Gen.Consts Model.Types Model.StreamFSM Model.Headers Model.ConnState Model.Connection
-  Proofs.C18Proofs Proofs.C23Proofs Proofs.C27Proofs.
+  Model.FrameBuffer Proofs.C18Proofs Proofs.C23Proofs Proofs.C27Proofs Proofs.C21Proofs.
 
 (* the memory of closed streams never exceeds MAX_CLOSED_STREAMS, for every history of calls and frames
    (induction over all operations, no bound on length; the eviction test is extracted from SizeLimitDict) *)
@@ -31,9 +31,25 @@ Theorem C27_oversized_header_list_is_refused :
   forall hs c, hl_size hs > c_dec_max_hls c -> snd (decode_headers (HDecoded hs) c) = Err DenialOfServiceError 11 0 false.
 Proof. exact oversized_header_list_is_enhance_your_calm. Qed.
 
+(* the frames of an unfinished header block (HEADERS / PUSH_PROMISE + CONTINUATIONs) held by the frame buffer never exceed
+   CONTINUATION_BACKLOG, for every byte string, every parser and every receiver, as long as receive_data does not raise *)
+Theorem C27_header_block_backlog_is_capped :
+  forall parse_hdr parse_body (S E : Type) (limit : S -> Z) (consume : S -> wframe -> S * option E) n s h d s1 e h1 r,
+    zlen h <= CONTINUATION_BACKLOG -> drain parse_hdr parse_body S E limit consume n s h d = (s1, e, (h1, r)) ->
+    (forall x, e <> Some (inl x)) -> zlen h1 <= CONTINUATION_BACKLOG.
+Proof. exact header_buffer_bounded. Qed.
+
 Print Assumptions C27_closed_stream_memory_is_capped.
+Print Assumptions C27_header_block_backlog_is_capped.
 Print Assumptions C27_priority_allocates_nothing.
 Print Assumptions C27_rst_stream_on_unknown_stream_allocates_nothing.
 Print Assumptions C27_window_update_on_unknown_stream_allocates_nothing.
 Print Assumptions C27_unknown_frame_types_change_nothing.
 Print Assumptions C27_oversized_header_list_is_refused.
+
+(* header blocks longer than the CONTINUATION limit are refused: once CONTINUATION_BACKLOG frames are held, the next frame
+   (a CONTINUATION with or without END_HEADERS, or anything else) raises ProtocolError *)
+Theorem C27_long_header_block_is_refused :
+  forall h f, h <> [] -> zlen h >= CONTINUATION_BACKLOG -> exists h', update_header_buffer h f = inl (EProtocol, h').
+Proof. exact (long_block_refused unit unit (fun s _ => (s, None))). Qed.
+Print Assumptions C27_long_header_block_is_refused.
